@@ -10,13 +10,16 @@ pub const VOCAB: &[&str] = &[
     "CharSequence", "List", "Map", "\"s\"", "\"é\"", "\"\"", "true", "false", "@A", "@B", "@nullable", "(", ")", "{", "}", "[", "]", "<", ">", "=", ".",
     ",", ";", "-", "x", "Foo", "a.b.C", "p", "IBinder", "12", "1.5f", "-3", "99999999999", "for", "class", "do", "007", "4294967295", "4294967296",
     "doubles", "inoutx", "_", "Listing", ".5", "+7", "1.", "12f", "Interface", "ENUM", "Parcelable", "Import", "OneWay", "Package", "Const", "TRUE", "FALSE",
-    "IN", "Void", "getInterfaceVersion",
+    "IN", "Void", "getInterfaceVersion", "cons", "interfac", "enumm", "packag", "imprt", "onewa", "parcelabl", "Array",
+    "\"Herzlich willkommen sowie die allerbesten Grüße aus München und Österreich\"", "\"aééééééééééééééééééééééééééééééééééééééééééééééééééééééé\"",
+    "\"漢字漢字漢字漢字漢字漢字漢字漢字漢字漢字漢字漢字漢字漢字漢字漢字漢字漢字漢字漢字\"", "@Backing", "@SuppressWarnings",
 ];
 
 /// Pieces that are not tokens of the grammar: comments, doc comments, whitespace, broken lexemes.
 pub const NOISE: &[&str] = &[
     "/**é*/", "/* c */", "// lc é\n", "/**/", "/***/", "\u{a0}", "\u{2028}", "\r\n", "\n", " ", "\t", "\"", "/*", "/", "#", "@", "٣", "３", "+", "'",
-    "\u{feff}", "\0", "e\u{301}", "😀", "漢", "/** doc */", "/** @param x é */", "*/", "\\", "$", "\u{85}", "\u{3000}", "\r",
+    "\u{feff}", "\0", "e\u{301}", "😀", "漢", "/** doc */", "/** @param x é */", "*/", "\\", "$", "\u{85}", "\u{3000}", "\r", "\u{1a}", "\u{7f}", "\u{200b}",
+    "\u{ad}", "\u{1b}",
 ];
 
 pub fn representative(k: K, rng: &mut Rng) -> &'static str {
